@@ -15,7 +15,7 @@
 
 uint32_t time_now(void) { return 0; }
 
-#define MAXF 8
+#define MAXF 14
 typedef struct { fibre_t f; int id; } vf_t;
 static vf_t fib[MAXF + 1];
 static int nf;
@@ -87,6 +87,12 @@ static int section(vf_t *v, int sec)
 	if (genmode) {
 		int n = drv_below(4);
 		gen_to_used = 0;
+		if (drv_below(40) == 0) {        /* the running fibre posts 8 (or 9) requests itself, then blocks: the final wake-up check must see them */
+			int burst = 8 + drv_below(2);
+			for (int i = 0; i < burst; i++) do_call(B_RUNATOMIC, 1 + drv_below(nf), "B");
+			static const int rc2[] = { PT_WAITING, PT_WAITING, PT_EXITED };
+			return result_code = rc2[drv_below(3)];
+		}
 		for (int i = 0; i < n; i++) {
 			int op = drv_below(4);
 			if (op == B_TIMEOUT) {
@@ -163,7 +169,10 @@ static void do_pass(long t, const char *res)
 	}
 	/* "unbounded" is t + FIBRE_UNBOUNDED_SLEEP, and that must be cyclically after t for a main loop to sleep on it */
 	int ub_sane = (uint32_t)FIBRE_UNBOUNDED_SLEEP > 0 && (uint32_t)FIBRE_UNBOUNDED_SLEEP <= 0x7fffffffu;
-	long mret = ((uint32_t)(ret - real(t)) == FIBRE_UNBOUNDED_SLEEP) ? (ub_sane ? -2 : -3) : model(ret);
+	/* (a due time exactly FIBRE_UNBOUNDED_SLEEP ahead is the same number as "unbounded": tell them apart by the timer queue) */
+	fibre_verif_snapshot_t after;
+	fibre_verif_snapshot(&after);
+	long mret = ((uint32_t)(ret - real(t)) == FIBRE_UNBOUNDED_SLEEP && after.ntimerq == 0) ? (ub_sane ? -2 : -3) : model(ret);
 	OUT("{\"e\":\"PassEnd\",\"a\":[\"%s\"],\"ret\":%ld,\"self\":%d,", ran ? (genmode ? rname(result_code) : res) : "none", mret, fid(fibre_self()));
 	snap();
 	OUT("}\n");
